@@ -81,16 +81,19 @@ func runC19(c *core.Ctx, o Options) {
 	send := c.Func("", "DefaultHandler.send")
 	if c.Anchor("send path", send != nil, "(*DefaultHandler).send", posOf(send)) {
 		var rAll, rType, toBytes, enq *ssa.Call
+		eff := map[*ssa.Call]an.EffCall{}
 		an.AllInstrs(send, func(in ssa.Instruction) {
 			call, ok := in.(*ssa.Call)
 			if !ok {
 				return
 			}
+			e := an.Effective(call) // a forwarding helper around Range stands for the Range call
+			eff[call] = e
 			switch {
-			case an.CalleeIs(&call.Call, "simplefix-go", "OutgoingHandlerPool.Range"):
-				if s, ok := an.ConstString(call.Call.Args[1]); ok && s == "ALL" {
+			case an.CalleeIs(&e.Inner.Call, "simplefix-go", "OutgoingHandlerPool.Range"):
+				if s, ok := an.ConstString(e.Arg(1)); ok && s == "ALL" {
 					rAll = call
-				} else if strings.HasSuffix(an.Render(call.Call.Args[1]), ".MsgType()") {
+				} else if strings.HasSuffix(an.Render(e.Arg(1)), ".MsgType()") {
 					rType = call
 				}
 			case call.Call.IsInvoke() && call.Call.Method.Name() == "ToBytes":
@@ -106,15 +109,9 @@ func runC19(c *core.Ctx, o Options) {
 				"sendRaw(h, ToBytes()#0)", "the enqueued bytes are "+an.Render(enq.Call.Args[1])+", not what ToBytes returned after the handlers ran")
 			// the message passed to handlers and serialized is the parameter
 			msgName := send.Params[1].Name()
-			okMsg := an.Render(toBytes.Call.Value) == msgName && strings.HasPrefix(an.Render(rType.Call.Args[1]), msgName+".")
+			okMsg := an.Render(toBytes.Call.Value) == msgName && strings.HasPrefix(an.Render(eff[rType].Arg(1)), msgName+".")
 			for _, rc := range []*ssa.Call{rAll, rType} {
-				cl := an.ClosureFn(rc.Call.Args[2])
-				if cl == nil {
-					okMsg = false
-					continue
-				}
-				ps, _ := an.EnumPaths(cl, 8)
-				if len(ps) != 1 || len(ps[0].Results) != 1 || ps[0].Results[0] != cl.Params[0].Name()+"("+msgName+")" {
+				if !handlerCalledWith(eff[rc], ssa.Value(send.Params[1])) {
 					okMsg = false
 				}
 			}
@@ -303,16 +300,19 @@ func runC19(c *core.Ctx, o Options) {
 	serve := c.Func("", "DefaultHandler.serve")
 	if c.Anchor("inbound dispatch", serve != nil, "(*DefaultHandler).serve", posOf(serve)) {
 		var lookup, rAll, rType *ssa.Call
+		eff := map[*ssa.Call]an.EffCall{}
 		an.AllInstrs(serve, func(in ssa.Instruction) {
 			call, ok := in.(*ssa.Call)
 			if !ok {
 				return
 			}
+			e := an.Effective(call)
+			eff[call] = e
 			switch {
 			case an.CalleeIs(&call.Call, "fix", "ValueByTag"):
 				lookup = call
-			case an.CalleeIs(&call.Call, "simplefix-go", "IncomingHandlerPool.Range"):
-				if s, ok := an.ConstString(call.Call.Args[1]); ok && s == "ALL" {
+			case an.CalleeIs(&e.Inner.Call, "simplefix-go", "IncomingHandlerPool.Range"):
+				if s, ok := an.ConstString(e.Arg(1)); ok && s == "ALL" {
 					rAll = call
 				} else {
 					rType = call
@@ -321,17 +321,11 @@ func runC19(c *core.Ctx, o Options) {
 		})
 		if c.Anchor("dispatch steps", lookup != nil && rAll != nil && rType != nil, "ValueByTag, Range(ALL), Range(type)", serve.Pos()) {
 			c.Check(an.Render(lookup) == "fix.ValueByTag(msg, h.msgTypeTag)", "H4", "DefaultHandler.serve", "message type is read from the message's MsgType tag", lookup.Pos(), "ValueByTag(msg, h.msgTypeTag)", "the type is looked up as "+an.Render(lookup))
-			c.Check(an.Render(rType.Call.Args[1]) == "string("+an.Render(lookup)+"#0)", "H4", "DefaultHandler.serve", "type handlers are selected by the extracted type", rType.Pos(), "Range(string(type bytes))", "type-specific handlers are selected by "+an.Render(rType.Call.Args[1]))
+			c.Check(an.Render(eff[rType].Arg(1)) == "string("+an.Render(lookup)+"#0)", "H4", "DefaultHandler.serve", "type handlers are selected by the extracted type", rType.Pos(), "Range(string(type bytes))", "type-specific handlers are selected by "+an.Render(eff[rType].Arg(1)))
 			c.Check(an.Dominates(rAll, rType) && rAll.Block() == rType.Block(), "H4", "DefaultHandler.serve", "all-types handlers first, then type handlers, unconditionally", serve.Pos(), "Range(ALL) then Range(type) in one block", "the type-specific handlers do not unconditionally follow the all-types handlers")
 			okMsg := true
 			for _, rc := range []*ssa.Call{rAll, rType} {
-				cl := an.ClosureFn(rc.Call.Args[2])
-				if cl == nil {
-					okMsg = false
-					continue
-				}
-				ps, _ := an.EnumPaths(cl, 8)
-				if len(ps) != 1 || len(ps[0].Results) != 1 || ps[0].Results[0] != cl.Params[0].Name()+"(msg)" {
+				if !handlerCalledWith(eff[rc], ssa.Value(serve.Params[1])) {
 					okMsg = false
 				}
 			}
@@ -541,4 +535,25 @@ func checkPoolGrowOnly(c *core.Ctx, rule string) {
 		})
 	}
 	c.Check(n >= 2, rule, "HandlerPool", "updates of the handler map found", token.NoPos, fmt.Sprint(n), fmt.Sprintf("%d updates of HandlerPool.handlers found (append in add, delete in free were confirmed)", n))
+}
+
+// handlerCalledWith: the function literal handed to Range (argument 2 of the effective call) has a single path, and its result
+// is its own parameter — the handler — applied to want, the message of the outer function.
+func handlerCalledWith(e an.EffCall, want ssa.Value) bool {
+	if len(e.Inner.Call.Args) < 3 {
+		return false
+	}
+	cl := an.ClosureFn(e.Inner.Call.Args[2])
+	if cl == nil || len(cl.Params) != 1 {
+		return false
+	}
+	ps, _ := an.EnumPaths(cl, 8)
+	if len(ps) != 1 || len(ps[0].ResVals) != 1 {
+		return false
+	}
+	call, ok := an.Unspill(ps[0].ResVals[0]).(*ssa.Call)
+	if !ok || call.Call.IsInvoke() || call.Call.Value != ssa.Value(cl.Params[0]) || len(call.Call.Args) != 1 {
+		return false
+	}
+	return e.Resolve(call.Call.Args[0]) == want
 }
